@@ -46,7 +46,9 @@ func New(limit dag.Metric, callback Callback) *EventsBuffer {
 		callback: callback,
 		limit:    limit,
 	}
-	buf.incompletes, _ = wlru.New(math.MaxInt32, math.MaxInt32)
+	// the cache itself must never evict: only spillIncompletes removes entries, so that every
+	// removed event is reported through Released
+	buf.incompletes, _ = wlru.New(math.MaxUint, math.MaxInt)
 	return buf
 }
 
